@@ -79,9 +79,9 @@ def record(rng, ngraph, nillegal):
         c["lmap"] = [[int(a), [int(x) for x in b]] for a, b in lm.items()]
         r = impl.call(dsw.latter_map_to_accessor, lm, k)
         c["back_lm"] = impl.acc_list(r["value"]) if r["out"] == "ok" else []
-        c["has_matrix"] = k <= 3
+        c["has_matrix"] = k <= 3 or (k == 4 and i % 2 == 0)          # order 4: successor indices beyond 127
         c["ones"], c["back_mx"] = [], []
-        if k <= 3:
+        if c["has_matrix"]:
             r = impl.call(dsw.accessor_to_adjacency_matrix, acc)
             if r["out"] == "ok":
                 m = r["value"]
